@@ -13,16 +13,20 @@ NAME_POOLS = {
                "e\u0301", "\u212b", "\u00c5", "a\u200b", " a", "\uff41"],
     "digits": ["1", "2", "10", "11", "9", "100", "01"],
     "wide": [f"t{i}" for i in range(300)],
+    # names that are prefixes / extensions of one another and of unequal width (fixed-width string arrays truncate silently)
+    "prefixy": ["t", "t1", "t10", "t100", "t2", "t20", "x", "xy", "xyz", "xyzw", "t1000000"],
 }
 SAMPLE_POOLS = {
     "ascii": ["s0", "s1", "s2", "s3", "s4", "s5", "s6"],
     "tricky": ["", "s", "S", "é", "日本", "cell line", "10", "9", "ctl", "zz" * 6, "e\u0301", "\u212b", "\u00c5", "s\u200b"],
     "wide": [f"s{i}" for i in range(300)],
+    "prefixy": ["s", "s1", "s10", "s100", "s2", "s12", "ab", "abc", "abcd", "s1000000"],
 }
 PLATE_POOLS = {
     "ascii": ["p0", "p1", "p2", "p3", "p4", "p5", "p6", "p7", "p8", "p9", "p10", "p11"],
     "tricky": ["", "p", "P", "é", "日本", "plate 1", "10", "9", "2", "ctl", "unobserved_plate", "q" * 9, "e\u0301", "\u212b", "\u00c5", "p\u200b"],
     "wide": [f"p{i}" for i in range(300)],
+    "prefixy": ["p", "p1", "p10", "p100", "p2", "p12", "q", "qr", "qrs", "p1000000"],
 }
 DOSES = [1.0, 2.0, 0.5, 10.0, 1e-3, 5e-324, 2.2250738585072014e-308, 1e300, 3.0000000000000004]
 CONTROL_DOSES = [0.0, -0.0, -1.0, -5e-324]
@@ -43,7 +47,7 @@ def gen_screen(rnd, *, arity=None, n_rows=None, n_plates=None, n_samples=None, n
                control_rate=0.25, dup_rate=0.15, nonzero_obs=False, all_observed=False,
                no_self_pairs=False, big_rate=0.05):
     """A raw screen: dict(control, arity, rows=[[sample,[[name,dose]..],obs,plate,observed]..])"""
-    alphabet = alphabet or rnd.choice(["ascii", "ascii", "tricky"])
+    alphabet = alphabet or rnd.choice(["ascii", "ascii", "tricky", "tricky", "prefixy"])
     arity = arity or rnd.choice([1, 2, 2, 2, 3])
     n_rows = n_rows or rnd.randint(4, 40)
     # a few runs are BIG: more rows than any plausible block size (32, 64, 128, 256) and more distinct samples,
@@ -63,7 +67,7 @@ def gen_screen(rnd, *, arity=None, n_rows=None, n_plates=None, n_samples=None, n
     samples = rnd.sample(SAMPLE_POOLS[alphabet], min(n_samples, len(SAMPLE_POOLS[alphabet])))
     plates = rnd.sample(PLATE_POOLS[alphabet], min(n_plates, len(PLATE_POOLS[alphabet])))
     doses = rnd.sample(DOSES if alphabet == "tricky" else DOSES[:5], n_doses)
-    if control is None and alphabet == "wide":
+    if control is None and alphabet in ("wide", "prefixy"):
         control = rnd.choice(["", "control", names[0]])
     if control is None:
         control = rnd.choice(["", "control", "ctl", rnd.choice(names)]) if alphabet == "tricky" else rnd.choice(["", "control", names[0]])
